@@ -53,6 +53,9 @@ type T struct {
 	Elem *T     // list/set element, map value
 	S    string // struct or enum name
 	Ptr  bool   // struct held by pointer (false: by value)
+	// GoName: for I64 only - the Go type is this named int64 type (the same Go type that is an enum when annotated
+	// with its own name), annotated "i64": same Go type, different Thrift type.
+	GoName string
 }
 
 // Wire returns the wire type code of t.
@@ -130,6 +133,9 @@ func (t *T) GoType() string {
 	case I32:
 		return "int32"
 	case I64:
+		if t.GoName != "" {
+			return t.GoName
+		}
 		return "int64"
 	case Double:
 		return "float64"
